@@ -185,7 +185,7 @@ func runC15(r *core.Run) {
 			ec := BuildContext(vcs, prior)
 			prior.Reuse = ec
 			if _, err := Endorse(r, a, vcs, prior, scratch); err != nil {
-				r.HarnessErr = "earlier preview on the shared context failed: " + err.Error()
+				r.Fail("dry-run-crash", "error/earlier-preview", "%s: the preview run failed: %v", prior, err)
 				return
 			}
 			q.Reuse = ec
